@@ -395,8 +395,15 @@ def _stored_names(fd):
 def gen_d(r, name):
     for _ in range(8):
         p = r.choice(D_POOL)
+        psrc, tag = p["src"], "corpus:" + p["id"]
+        if r.random() < 0.35:
+            # a near-twin of the corpus program (one AST mutation, signature types kept): B2-B4 and B6 need no
+            # Python-level meaning, so any mutant is admissible; one the front end refuses is refused by hand too (B0)
+            m = progs.mutate(psrc, p, r, exclude=("arg_retype", "ret_retype", "arg_swap"))
+            if m is not None:
+                psrc, tag = m[0], "corpusmut:" + m[2] + ":" + p["id"]
         try:
-            t = ast.parse(p["src"])
+            t = ast.parse(psrc)
         except SyntaxError:
             continue
         fd = t.body[0]
@@ -416,7 +423,7 @@ def gen_d(r, name):
         if not args and r.random() < 0.7:
             continue
         src = ast.unparse(ast.fix_missing_locations(t)) + "\n"
-        return src, params, args, (ast.unparse(fd.returns) if fd.returns else "bool"), "corpus:" + p["id"], []
+        return src, params, args, (ast.unparse(fd.returns) if fd.returns else "bool"), tag, []
     return gen_g(r, name)
 
 
